@@ -1408,7 +1408,9 @@ class Torrent():
 
             # Validate expected number of pieces
             piece_count = int(len(info['pieces']) / 20)
-            exp_piece_count = math.ceil(info['length'] / info['piece length'])
+            # Use integer arithmetic because float division is inexact for very
+            # large numbers and raises OverflowError for huge ones
+            exp_piece_count = -(-int(info['length']) // info['piece length'])
             if piece_count != exp_piece_count:
                 raise error.MetainfoError(f'Expected {exp_piece_count} pieces but there are {piece_count}')
 
@@ -1438,8 +1440,8 @@ class Torrent():
             # - validate() should ensure that ['info']['pieces'] is math.ceil(self.size /
             #   self.piece_size) bytes long.
             piece_count = int(len(info['pieces']) / 20)
-            exp_piece_count = math.ceil(sum(fileinfo['length'] for fileinfo in info['files'])
-                                        / info['piece length'])
+            exp_piece_count = -(-sum(int(fileinfo['length']) for fileinfo in info['files'])
+                                // info['piece length'])
             if piece_count != exp_piece_count:
                 raise error.MetainfoError(f'Expected {exp_piece_count} pieces but there are {piece_count}')
 
